@@ -707,7 +707,8 @@ def run(ctx, args):
     quick = ctx.tier == "quick"
     st = lean_check(ctx, ["LlgoVerif.Props.C10"], ["LlgoVerif/Props/C10.lean"],
                     extra_files=["LlgoVerif/Model/Chan.lean", "LlgoVerif/Lemmas/Chan.lean", "LlgoVerif/Lemmas/ChanThreads.lean",
-                                 "LlgoVerif/Lemmas/ChanLive.lean"],
+                                 "LlgoVerif/Lemmas/ChanLive.lean", "LlgoVerif/Lemmas/ChanPlain.lean",
+                                 "LlgoVerif/Lemmas/ChanHist.lean", "LlgoVerif/Lemmas/ChanResults.lean"],
                     leanchecker=(ctx.tier == "thorough"))
     modeld = build_driver(ctx, "modeld_c10")
     real = build_real(ctx)
